@@ -201,14 +201,23 @@ class StackLen(Val):
 class Cond(Val):
     pykind = "bool"
 
-    def __init__(self, text: str, kind: str = "", subject: Optional[Val] = None, arg: str = "", negated: bool = False, kids: Tuple[Val, ...] = ()):
+    def __init__(self, text: str, kind: str = "", subject: Optional[Val] = None, arg: str = "", negated: bool = False, kids: Tuple[Val, ...] = (), node=None):
         super().__init__()
+        self.node = node
         self.text = text
         self.kind = kind  # isinstance | stack-nonempty | other
         self.subject = subject
         self.arg = arg
         self.negated = negated
         self.kids = kids
+
+    def roots(self):
+        out = frozenset()
+        for k in self.kids:
+            out |= k.roots()
+        if self.subject is not None:
+            out |= self.subject.roots()
+        return out
 
     def short(self):
         return f"COND({self.text})"
